@@ -44,7 +44,7 @@ pub fn spec() -> CheckSpec {
     ],
     real_components: "deno_graph builder + ModuleEntryIterator + ModuleGraphErrorIterator",
     stub_components: "all seams simulated; reference walk over a plain-data copy of the graph",
-    quick_cases: 3000,
+    quick_cases: 8000,
     thorough_cases: 150000,
     run_case: |t, tier, p| run_case_for(t, tier, p, "C15"),
     systematic: |_| 0,
